@@ -48,7 +48,7 @@ def tlc(module, cfg=None, env=None, workers=1, timeout=900, metadir=None, xmx="3
     """Run TLC; returns dict(out, rc, generated, distinct, strings). Raises InfraError on timeouts/crashes
     that are not verdicts (rc 0 = ok, 12/13 = safety/liveness/postcondition violation)."""
     md = metadir or os.path.join(VERIF, ".work", "md-%d-%d" % (os.getpid(), int(time.time() * 1e6) % 10**9))
-    cmd = ["java", "-Xmx" + xmx, "-XX:+UseParallelGC"]
+    cmd = ["java", "-Xmx" + xmx, "-Xss256m", "-XX:+UseParallelGC"]
     if deque:
         cmd.append("-Dtlc2.tool.queue.IStateQueue=StateDeque")
     cmd += ["-cp", TLA_CP, "tlc2.TLC", "-noGenerateSpecTE", "-workers", str(workers), "-metadir", md]
